@@ -436,4 +436,122 @@ example : 0 ≤ phase2t flr Real.pi 180 360 2 30 (-200) (1 / 2) := (phase2t_spec
 
 end phase
 
+
+/-! ## Two circles (`Arc.intersect(Arc)`, both circular and unrotated) -/
+section circles
+variable {K : Type} [Field K]
+
+/-- **Both candidate points lie on both circles**: with `d² = |p1 − p0|²`, `d ≠ 0` and `h² = r0² − a²` (the traced
+argument of the square root), the traced `p30` and `p31` are at distance `r0` from `p0` and `r1` from `p1`. -/
+theorem cc_points_on_both (p0x p0y p1x p1y r0 r1 d h : K) (h2 : (2 : K) ≠ 0) (hd : d ≠ 0)
+    (hdd : d * d = (p1x - p0x) * (p1x - p0x) + (p1y - p0y) * (p1y - p0y))
+    (hh : h * h = Gen.C11.cc_hsq p0x p0y p1x p1y r0 r1 d) :
+    (Gen.C11.cc_p30x p0x p0y p1x p1y r0 r1 d h - p0x) ^ 2 + (Gen.C11.cc_p30y p0x p0y p1x p1y r0 r1 d h - p0y) ^ 2 = r0 ^ 2 ∧
+    (Gen.C11.cc_p30x p0x p0y p1x p1y r0 r1 d h - p1x) ^ 2 + (Gen.C11.cc_p30y p0x p0y p1x p1y r0 r1 d h - p1y) ^ 2 = r1 ^ 2 ∧
+    (Gen.C11.cc_p31x p0x p0y p1x p1y r0 r1 d h - p0x) ^ 2 + (Gen.C11.cc_p31y p0x p0y p1x p1y r0 r1 d h - p0y) ^ 2 = r0 ^ 2 ∧
+    (Gen.C11.cc_p31x p0x p0y p1x p1y r0 r1 d h - p1x) ^ 2 + (Gen.C11.cc_p31y p0x p0y p1x p1y r0 r1 d h - p1y) ^ 2 = r1 ^ 2 := by
+  simp only [Gen.C11.cc_hsq] at hh
+  simp only [Gen.C11.cc_p30x, Gen.C11.cc_p30y, Gen.C11.cc_p31x, Gen.C11.cc_p31y]
+  obtain ⟨a, ha⟩ : ∃ a, a = (r0 ^ 2 - r1 ^ 2 + d ^ 2) / (2 * d) := ⟨_, rfl⟩
+  rw [← ha] at hh ⊢
+  have ha' : a * (2 * d) = r0 ^ 2 - r1 ^ 2 + d ^ 2 := by rw [ha]; exact div_mul_cancel₀ _ (mul_ne_zero h2 hd)
+  obtain ⟨ux, hux⟩ : ∃ ux, ux = (p1x - p0x) / d := ⟨_, rfl⟩
+  obtain ⟨uy, huy⟩ : ∃ uy, uy = (p1y - p0y) / d := ⟨_, rfl⟩
+  have eux : p1x - p0x = ux * d := by rw [hux]; field_simp
+  have euy : p1y - p0y = uy * d := by rw [huy]; field_simp
+  have hu : ux * ux + uy * uy = 1 := by
+    have : (ux * d) * (ux * d) + (uy * d) * (uy * d) = d * d := by rw [← eux, ← euy, hdd]
+    have hd2 : d * d ≠ 0 := mul_ne_zero hd hd
+    have e : (ux * ux + uy * uy) * (d * d) = 1 * (d * d) := by linear_combination this
+    exact mul_right_cancel₀ hd2 e
+  have r1x : a * (p1x - p0x) / d = a * ux := by rw [hux]; ring
+  have r1y : a * (p1y - p0y) / d = a * uy := by rw [huy]; ring
+  have r2x : h * (p1x - p0x) / d = h * ux := by rw [hux]; ring
+  have r2y : h * (p1y - p0y) / d = h * uy := by rw [huy]; ring
+  rw [r1x, r1y, r2x, r2y]
+  have p1xe : p1x = p0x + ux * d := by linear_combination eux
+  have p1ye : p1y = p0y + uy * d := by linear_combination euy
+  refine ⟨?_, ?_, ?_, ?_⟩
+  · linear_combination (a ^ 2 + h ^ 2) * hu + hh
+  · rw [p1xe, p1ye]
+    linear_combination (a ^ 2 + h ^ 2 - 2 * a * d + d ^ 2) * hu + hh - ha'
+  · linear_combination (a ^ 2 + h ^ 2) * hu + hh
+  · rw [p1xe, p1ye]
+    linear_combination (a ^ 2 + h ^ 2 - 2 * a * d + d ^ 2) * hu + hh - ha'
+
+end circles
+
+/-! ## Unrotated arc ∩ non-vertical line: the closed-form candidates -/
+section arcline
+variable {K : Type} [Field K]
+
+/-- **The candidates `(x1, y1)` and `(x2, y2)` of `Arc.intersect(Line)` lie on the ellipse and on the line's carrier**
+(`s² =` the traced discriminant, the line is not vertical, `a, b ≠ 0`, `a² m² + b² ≠ 0`): these are the points handed to
+the two `point_to_t` range filters, so every intersection that is reported has been through an exact candidate and no
+intersection of the carrier with the full ellipse is missing from the candidates. -/
+theorem al_candidates_on_both (a b cx cy l0x l0y l1x l1y s : K) (ha : a ≠ 0) (hb : b ≠ 0) (hdx : l1x - l0x ≠ 0)
+    (hD : a * a * (((l1y - l0y) / (l1x - l0x)) * ((l1y - l0y) / (l1x - l0x))) + b * b ≠ 0)
+    (hs : s * s = Gen.C11.al_disc a b cx cy l0x l0y l1x l1y) :
+    let m := (l1y - l0y) / (l1x - l0x)
+    ((Gen.C11.al_p11x a b cx cy l0x l0y l1x l1y s - cx) ^ 2 / a ^ 2 + (Gen.C11.al_p11y a b cx cy l0x l0y l1x l1y s - cy) ^ 2 / b ^ 2 = 1 ∧
+     Gen.C11.al_p11y a b cx cy l0x l0y l1x l1y s - l0y = m * (Gen.C11.al_p11x a b cx cy l0x l0y l1x l1y s - l0x)) ∧
+    ((Gen.C11.al_p22x a b cx cy l0x l0y l1x l1y s - cx) ^ 2 / a ^ 2 + (Gen.C11.al_p22y a b cx cy l0x l0y l1x l1y s - cy) ^ 2 / b ^ 2 = 1 ∧
+     Gen.C11.al_p22y a b cx cy l0x l0y l1x l1y s - l0y = m * (Gen.C11.al_p22x a b cx cy l0x l0y l1x l1y s - l0x)) := by
+  intro m
+  simp only [Gen.C11.al_disc] at hs
+  simp only [Gen.C11.al_p11x, Gen.C11.al_p11y, Gen.C11.al_p22x, Gen.C11.al_p22y]
+  have e1 : (l1y - cy) - (l0y - cy) = l1y - l0y := by ring
+  have e2 : (l1x - cx) - (l0x - cx) = l1x - l0x := by ring
+  rw [e1, e2] at hs ⊢
+  obtain ⟨mm, hm⟩ : ∃ mm, mm = (l1y - l0y) / (l1x - l0x) := ⟨_, rfl⟩
+  have hm' : m = mm := by rw [hm]
+  rw [hm']
+  rw [← hm] at hs hD ⊢
+  obtain ⟨c, hc⟩ : ∃ c, c = -mm * (l0x - cx) + (l0y - cy) := ⟨_, rfl⟩
+  rw [← hc] at hs ⊢
+  obtain ⟨D, hDd⟩ : ∃ D, D = a * a * mm * mm + b * b := ⟨_, rfl⟩
+  have hD' : D ≠ 0 := by rw [hDd]; intro h0; apply hD; linear_combination h0
+  have hs' : s * s = D - c * c := by rw [hDd]; linear_combination hs
+  have q1 : a * a * mm * mm + b * b = D := hDd.symm
+  rw [q1]
+  refine ⟨⟨?_, ?_⟩, ⟨?_, ?_⟩⟩
+  · field_simp
+    linear_combination (a ^ 2 * b ^ 2 * D) * hs' - (a ^ 2 * b ^ 2 * (c ^ 2 + s ^ 2)) * hDd
+  · field_simp
+    linear_combination (-c) * hDd + D * hc
+  · field_simp
+    linear_combination (a ^ 2 * b ^ 2 * D) * hs' - (a ^ 2 * b ^ 2 * (c ^ 2 + s ^ 2)) * hDd
+  · field_simp
+    linear_combination (-c) * hDd + D * hc
+
+end arcline
+
+/-! ## Line.point_to_t -/
+section linept
+variable {K : Type} [Field K]
+
+/-- **`Line.point_to_t` is sound**: when the imaginary part it tests is exactly 0, the returned `t` satisfies
+`start + (end − start)·t = point`. -/
+theorem lpt_sound (sx sy ex ey zx zy : K)
+    (hN : (ex - sx) * (ex - sx) + (ey - sy) * (ey - sy) ≠ 0)
+    (him : Gen.C11.lpt_im sx sy ex ey zx zy = 0) :
+    sx + (ex - sx) * Gen.C11.lpt_t sx sy ex ey zx zy = zx ∧ sy + (ey - sy) * Gen.C11.lpt_t sx sy ex ey zx zy = zy := by
+  simp only [Gen.C11.lpt_im] at him
+  simp only [Gen.C11.lpt_t]
+  obtain ⟨N, hNd⟩ : ∃ N, N = (ex - sx) * (ex - sx) + (ey - sy) * (ey - sy) := ⟨_, rfl⟩
+  rw [← hNd] at hN him ⊢
+  have hc : (zy - sy) * (ex - sx) - (zx - sx) * (ey - sy) = 0 := by
+    rcases div_eq_zero_iff.mp him with h | h
+    · exact h
+    · exact absurd h hN
+  have k1 : (ex - sx) * ((zx - sx) * (ex - sx) + (zy - sy) * (ey - sy)) = (zx - sx) * N := by
+    rw [hNd]; linear_combination (ey - sy) * hc
+  have k2 : (ey - sy) * ((zx - sx) * (ex - sx) + (zy - sy) * (ey - sy)) = (zy - sy) * N := by
+    rw [hNd]; linear_combination (-(ex - sx)) * hc
+  constructor
+  · rw [← mul_div_assoc, k1, mul_div_assoc, div_self hN]; ring
+  · rw [← mul_div_assoc, k2, mul_div_assoc, div_self hN]; ring
+
+end linept
+
 end SvgVerif.Props.C11
